@@ -178,7 +178,7 @@ struct Run {
     if (property == "C05" && (clause == "C08.1" || clause == "C08.3" || clause == "C09.2") && cancelledBuilds > 0) clause = "C05.5";   // a later build is not clean
     bool mine = clause.compare(0, property.size() + 1, property + ".") == 0;
     if (const char* promote = getenv("VSIM_PROMOTE"))   // development aid: report another property's clause as a violation
-      if (clause == promote) mine = true;
+      if (("," + std::string(promote) + ",").find("," + clause + ",") != std::string::npos) mine = true;
     if (mine) {
       if (verdict) return;
       verdict = true;
@@ -1296,6 +1296,12 @@ void Run::execute() {
       simfs::fs().writeFile(p, util::unhex(op.gets("content")));
       sourceEdits++;
       ev("edit " + util::printable(p, 60));
+    } else if (kind == "blockdir") {
+      // a directory appears where a command writes its output: the command cannot write it
+      std::string p = abs(util::unhex(op.gets("path")));
+      simfs::fs().removeAll(p);
+      simfs::fs().mkdirs(p);
+      ev("directory-in-the-way " + util::printable(p, 60));
     } else if (kind == "delete") {
       std::string p = abs(util::unhex(op.gets("path")));
       simfs::fs().removeAll(p);
@@ -1461,6 +1467,14 @@ struct Gen {
         }
       }
       if ((property == "C09" || property == "C10") && rng.chance(property == "C09" ? 160 : 90)) c.allowModified = true;
+      if ((property == "C08" || property == "C09" || property == "C10") && rng.chance(90)) {
+        // allow-missing-inputs: an input that may not be there; the command runs either way and must notice it come and go
+        c.allowMissing = true;
+        std::string m = "maybe" + std::to_string(i) + ".h";
+        c.inputs.push_back(m);
+        maybes.push_back(m);
+        if (rng.chance(500)) sources[m] = freshContent("maybe", {});
+      }
       if (rng.chance(150)) c.outputs.insert(c.outputs.begin() + (rng.chance(600) ? 0 : (long)c.outputs.size()), "<v" + std::to_string(i) + ">");
       if (rng.chance(200)) c.env.push_back({"MODE", "m" + std::to_string(rng.below(5))});
       if (rng.chance(100)) c.env.push_back({"OTHER", "o" + std::to_string(rng.below(5))});
@@ -1619,6 +1633,7 @@ struct Gen {
   std::set<std::string> treeFiles, treeDirs;
   std::map<std::string, std::vector<std::string>> pastContents;
   int linkCommands = 0, mkdirCommands = 0;
+  std::vector<std::string> maybes;   // inputs of allow-missing-inputs commands that come and go
   std::string pickName(bool dirName) {
     static const char* fn[] = {"a.txt", "b.txt", "c.c", "d.tmp", "skipme", "e.h", "f.tmp", "g", "skip.2", "h.txt"};
     static const char* dn[] = {"sub", "inc", "x", "deep", "skipdir", "y.tmp"};
@@ -1980,6 +1995,16 @@ struct Gen {
           hist.push(Json::obj().set("op", "edit").set("path", util::hex(p)).set("content", util::hex(content)));
         }
         addBuild();
+      } else if (roll < 640 && roll >= 620 && !maybes.empty()) {
+        std::string m = maybes[rng.below(maybes.size())];
+        if (sources.count(m)) {
+          sources.erase(m);
+          hist.push(Json::obj().set("op", "delete").set("path", util::hex(m)));
+        } else {
+          sources[m] = freshContent("maybe", {});
+          hist.push(Json::obj().set("op", "edit").set("path", util::hex(m)).set("content", util::hex(sources[m])));
+        }
+        addBuild();
       } else if (roll < 620 && roll >= 600 && mkdirCommands > 0 && desc.byName("M0")) {
         // the directory disappears with everything in it
         hist.push(Json::obj().set("op", "delete").set("path", util::hex(rng.chance(500) ? "gen.dir" : "keep.dir")));
@@ -2016,6 +2041,19 @@ struct Gen {
         std::string mode = modes[rng.below(property == "C11" ? 5 : 3)];
         const Cmd* vc = desc.byName(victim);
         if ((mode == "baddeps" || mode == "baddeps2") && (!vc || vc->deps.empty())) mode = "exit";
+        std::string firstFile;
+        if (vc)
+          for (auto& o : vc->outputs)
+            if (!isVirtualNode(o) && !isDirNode(o) && firstFile.empty()) firstFile = o;
+        if (property == "C10" && vc && !firstFile.empty() && !vc->allowModified && rng.chance(200)) {
+          // unwritable output: the tool itself fails (nothing injected); repair = the obstacle goes away
+          hist.push(Json::obj().set("op", "blockdir").set("path", util::hex(firstFile)));
+          addBuild();
+          if (rng.chance(500)) addBuild();
+          hist.push(Json::obj().set("op", "delete").set("path", util::hex(firstFile)));
+          addBuild();
+          continue;
+        }
         hist.push(Json::obj().set("op", "fail").set("cmd", util::hex(victim)).set("mode", mode));
         // force it to run: touch one of its source inputs or its definition
         if (vc) {
